@@ -1,16 +1,13 @@
 import os
 from driver import Leg
 
-# The defect this check found on the pinned tree (RawDataMessageIOGateway::DoInputImplementation recursed once per delivered min-size
-# chunk: 24 KB of pending input with minChunkSize=1 overflowed the stack) is repaired in /repo; it keeps its stable key
-# regress|raw|unbounded-recursion-per-chunk and a fixed witness (stack growth measured over 400 chunks, then a 100000-chunk burst).
-# VERIF_C03_MASK=rawrecursion exists only to judge a tree OLDER than that repair (counted masked_rawrecursion; such a tree would also
-# overflow the stack in the pipe leg's raw_min1 cases).  Default: strict.
-_MASK = os.environ.get('VERIF_C03_MASK', '')
+# Defects this check found on the pinned tree, all repaired in /repo, each with a stable key and a fixed witness in the regress leg:
+#   regress|raw|unbounded-recursion-per-chunk        RawDataMessageIOGateway::DoInputImplementation recursed once per delivered min-size chunk
+#   regress|fanout|reuse-tag|zlib-dependent-stream   a Message tagged by OptimizeMessageForTransmissionToMultipleGateways() was sent with another
+#   regress|fanout|reuse-tag|templating-format       gateway's state-dependent bytes (dependent zlib stream / templating format and template cache)
 
 
 def _o(**kw):
-    if _MASK: kw['mask'] = _MASK
     return kw
 
 
@@ -27,7 +24,7 @@ def _post(run):
         if run.tier != 'quick' and k.startswith('max_sweeppairneed_'):
             cfg = k[len('max_sweeppairneed_'):]
             if st.get('sweeppair_' + cfg, 0) != need: missing.append('%s cut pairs %d of %d' % (cfg, st.get('sweeppair_' + cfg, 0), need))
-    if len([k for k in st if k.startswith('max_sweepneed_')]) < 34: missing.append('fewer than 34 gateway configs calibrated')
+    if len([k for k in st if k.startswith('max_sweepneed_')]) < len(_CFGS): missing.append('fewer than %d gateway configs calibrated' % len(_CFGS))
     if missing:
         run.inconclusive.append('sweep not exhaustive (raise the case count of leg sweep in checks/C03.py: single total %s, with pairs %s): %s'
                                 % (st.get('max_sweep_single_total'), st.get('max_sweep_total'), '; '.join(missing[:6])))
@@ -42,22 +39,35 @@ def _extra(run):
 
 _CFGS = ['msg_enc0', 'msg_zlib1', 'msg_zlib2', 'msg_zlib3', 'msg_zlib4', 'msg_zlib5', 'msg_zlib6', 'msg_zlib7', 'msg_zlib8', 'msg_zlib9', 'msg_switch', 'counted',
          'tmpl_200', 'tmpl_200_z', 'tmpl_2k', 'tmpl_2k_z', 'tmpl_1m', 'tmpl_1m_z', 'text', 'text_foreign', 'raw_min0', 'raw_min1', 'raw_min7', 'raw_min4096', 'slip',
-         'ws_hs_slave', 'ws_hs_builtin', 'ws_nohs_slave', 'ws_nohs_builtin', 'ws_foreign', 'cgw_cpp2mini', 'cgw_mini2cpp', 'cgw_cpp2micro', 'cgw_micro2cpp']
+         'ws_hs_slave', 'ws_hs_builtin', 'ws_nohs_slave', 'ws_nohs_builtin', 'ws_foreign', 'cgw_cpp2mini', 'cgw_mini2cpp', 'cgw_cpp2micro', 'cgw_micro2cpp',
+         'fanout', 'fanout2', 'raw_counted', 'text_flush', 'text_telnet']
 _pipe_min = {'runs_' + c: 150 for c in _CFGS}
 _pipe_min.update({'zero_byte_reads': 50000, 'zero_byte_writes': 5000, 'rb_m8_hdr1': 1000, 'rb_m8_hdr2': 1000, 'rb_m8_hdr3': 1000, 'rb_m8_hdr4': 1000, 'rb_m8_hdr5': 1000,
                   'rb_m8_hdr6': 1000, 'rb_m8_hdr7': 1000, 'rb_m8_body_first': 2000, 'rb_m8_body_last': 1000, 'rb_m8_at2047': 30, 'rb_m8_at2048': 30, 'rb_m8_at2049': 30,
                   'frames_of_2046_to_2050_bytes': 100, 'frames_beyond_scratch_buffer': 200, 'rb_line_between_cr_lf': 100, 'rb_slip_after_esc': 500, 'rb_chunk_minus1': 1000,
                   'rb_ws_http_mid': 5000, 'rb_ws_hdr1': 300, 'rb_ws_hdr3': 200, 'rb_ws_hdr5': 100, 'rb_ws_hdr9': 3, 'rb_ws_payload_first': 500, 'rb_ws_payload_last': 200,
-                  'encoding_switches': 100, 'tmpl_cases_with_eviction_and_recreation': 50, 'tmpl_frames_payload_only': 1000, 'wsforeign_fragments': 300})
+                  'encoding_switches': 100, 'tmpl_cases_with_eviction_and_recreation': 50, 'tmpl_frames_payload_only': 1000, 'wsforeign_fragments': 300,
+                  # routes added after the coverage audit: reuse tag / several senders, counted raw, end of stream + FlushInput, telnet filter, Reset()-then-reuse
+                  'fanout_tagged_items_to_2plus_lanes': 800, 'fanout_untagged_items_to_2plus_lanes': 200, 'fanout_pairs_default_default': 100, 'fanout_pairs_dependent_same_zlib': 80,
+                  'fanout_pairs_independent_same_zlib': 10, 'fanout_pairs_independent_dependent_same_zlib': 50, 'fanout_pairs_templating_other': 150, 'fanout_pairs_templating_templating': 20,
+                  'countedraw_checks': 50000, 'countedraw_checks_with_2plus_queued': 1000, 'text_end_of_stream_seen': 150, 'text_unterminated_last_lines': 80,
+                  'telnet_commands': 1500, 'telnet_subnegotiations': 700, 'telnet_high_bit_bytes': 600, 'text_cases_with_other_eol_string': 50,
+                  'resets_midstream': 250, 'resets_at_quiescence': 400, 'resets_msg': 150, 'resets_tmpl': 100, 'resets_counted': 10, 'resets_text': 15, 'resets_textforeign': 50,
+                  'resets_raw': 80, 'resets_slip': 10, 'resets_ws': 60, 'resets_wsforeign': 10, 'resets_fanout': 40})
 
 SPEC = dict(
     level='exploration',
     design_ref='DESIGN.md section 3, C03 (and 2.4 scripted transports: harness/chopio.h)',
-    rule=("pipe: one case = (gateway config, Message sequence, schedule): 34 configs (MessageIOGateway in each of the 10 encodings, encoding switched mid-stream, "
+    rule=("pipe: one case = (gateway config, Message sequence, schedule): 39 configs (MessageIOGateway in each of the 10 encodings, encoding switched mid-stream, "
           "CountedMessageIOGateway, TemplatingMessageIOGateway LRU 200 B / 2 KiB / 1 MiB x {plain, zlib} with repeating / alternating / cycling / evicting shapes, "
           "PlainText muscle->muscle and foreign CR / LF / CRLF text, RawData min-chunk 0/1/7/4096, SLIP dense in END/ESC, WebSocket client<->server {handshake, none} x "
           "{slave MessageIOGateway, built-in text/binary} with payloads around 125/126/65535/65536, a foreign RFC 6455 peer with fragmented masked frames, C Mini/Micro "
-          "gateways <-> C++ in four directions); every sequence runs under 3 schedules: S.DoOutput(maxBytes) / R.DoInput(maxBytes) / queue-next interleaved at random, "
+          "gateways <-> C++ in four directions; ONE MessageRef, tagged by OptimizeMessageForTransmissionToMultipleGateways() or not, queued on 2-4 sender gateways "
+          "(plain / counted / templating / independent-deflate subclass, encodings equal or different) each with its own receiver and pipe, the Message re-flattened afterwards; "
+          "CountedRawDataMessageIOGateway with its byte counter audited at every step; foreign text with an unterminated last line and end of stream (FlushInput); "
+          "TelnetPlainTextMessageIOGateway with IAC commands and sub-negotiations split by read boundaries); in a quarter of the cases both ends are Reset() once, in "
+          "mid-stream or at quiescence (what arrived so far must be a prefix of what was sent), the bytes in flight are discarded and a second sequence must arrive exactly; "
+          "every sequence runs under 3 schedules: S.DoOutput(maxBytes) / R.DoInput(maxBytes) / queue-next interleaved at random, "
           "maxBytes from {1,2,7,8,9,2047,2048,2049,NO_LIMIT,random}, every Read/Write of the in-memory pipe transferring 0 (would-block), 1, a few, a boundary-seeking "
           "amount (frame end, header end, each header byte, last body byte, frame+2047/2048/2049, each +-1), a uniform amount or everything, until a forced probe round "
           "moves no byte.  Oracle: binary gateways deliver the queued Messages, in order, compared by flattened bytes; text: concatenated list of lines; raw: "
@@ -75,11 +85,11 @@ SPEC = dict(
                  'UBSan alignment reports in MiniMessageGateway GetNextPointer/SetNextPointer are allow-listed (DESIGN.md 2.1)'],
     legs=[
         Leg('regress', 'h_gwpipe', 'asan', opts=_o(mode='regress'), quick=1, thorough=1, workers=1, leaks=True, min_cases=1),
-        Leg('pipe', 'h_gwpipe', 'asan', opts={'mode': 'pipe'}, quick=34 * 60 * 3, thorough=34 * 3000 * 3, workers=16, leaks=True),
-        Leg('sweep', 'h_gwpipe', 'asan', opts={'mode': 'sweep'}, quick=204000, thorough=705000, workers=16, leaks=True),
-        Leg('memcheck', 'h_gwpipe', 'plain', opts={'mode': 'pipe', 'short': '1'}, quick=34 * 3 * 4, thorough=34 * 3 * 80, workers=16, valgrind=True),
+        Leg('pipe', 'h_gwpipe', 'asan', opts={'mode': 'pipe'}, quick=len(_CFGS) * 60 * 3, thorough=len(_CFGS) * 3000 * 3, workers=16, leaks=True),
+        Leg('sweep', 'h_gwpipe', 'asan', opts={'mode': 'sweep'}, quick=250000, thorough=880000, workers=16, leaks=True),
+        Leg('memcheck', 'h_gwpipe', 'plain', opts={'mode': 'pipe', 'short': '1'}, quick=len(_CFGS) * 3 * 4, thorough=len(_CFGS) * 3 * 80, workers=16, valgrind=True),
     ],
     min_stats={'pipe': _pipe_min, 'sweep': {'sweep_read_cut_cases': 90000, 'sweep_write_cut_cases': 90000, 'cut_m8_hdr3': 50, 'cut_m8_at2048': 10, 'cut_line_between_cr_lf': 1, 'cut_slip_after_esc': 5, 'cut_ws_hdr1': 10, 'cut_ws_http_mid': 100},
-               'regress': {'regress_replayed_cases': 60, 'regress_zero_byte_reads': 4, 'regress_raw_burst_chunks': 100000}},
+               'regress': {'regress_replayed_cases': 70, 'regress_zero_byte_reads': 4, 'regress_raw_burst_chunks': 100000, 'regress_reuse_tag_lanes_ok': 5, 'regress_telnet_cut_positions': 20}},
     post=_post, extra_coverage=_extra,
 )
